@@ -204,12 +204,14 @@ def validate(ck, progs, label, meta=None, binary=None, tlc_timeout=1700):
             kind, msg = "err:" + parts[1], parts[2] if len(parts) > 2 else ""
         rows.append({"id": pid, "prog": make_prog(body), "ev": o["events"], "end": kind, "msg": msg})
         res[pid] = {"status": "pending", "observed": observed, "src": rq["src"]}
-    if rows:
-        t = run_tlc("Trace_Eval", files={"eval.ndjson": ndjson(rows)}, timeout_s=tlc_timeout)
-        ck.add_tlc(t, f"Trace_Eval {label}")
+    BATCH = 2500          # recorded runs per TLC process: bounded work per run, whatever the size of the family and the load of the machine
+    for b0 in range(0, len(rows), BATCH):
+        part = rows[b0:b0 + BATCH]
+        t = run_tlc("Trace_Eval", files={"eval.ndjson": ndjson(part)}, timeout_s=tlc_timeout)
+        ck.add_tlc(t, f"Trace_Eval {label}" + (f" [{b0 // BATCH + 1}/{(len(rows) + BATCH - 1) // BATCH}]" if len(rows) > BATCH else ""))
         vs = payloads(t, "V ")
-        if len(vs) != len(rows):
-            raise pvlib.Broken(f"Trace_Eval returned {len(vs)} verdicts for {len(rows)} recorded runs")
+        if len(vs) != len(part):
+            raise pvlib.Broken(f"Trace_Eval returned {len(vs)} verdicts for {len(part)} recorded runs")
         for v in vs:
             r = res[v["id"]]
             r["status"] = v["s"]
